@@ -1,6 +1,12 @@
 package main
 
-import "gopkg.in/typ.v4/slices"
+import (
+	"fmt"
+	"strconv"
+	"strings"
+
+	"gopkg.in/typ.v4/slices"
+)
 
 // C07: slices.Sorted[int]
 type c07 struct {
@@ -30,6 +36,33 @@ func (w *c07) step(t []string) string {
 		backing := make([]int, len(vals), len(vals)+extra)
 		copy(backing, vals)
 		w.input = backing
+		switch atoi(t[1]) {
+		case 3: // NewSortedOrdered over ints (the spread form hands the function the caller's slice itself)
+			s := slices.NewSortedOrdered(backing...)
+			w.s = &s
+			return "ok"
+		case 4: // NewSortedOrdered over STRINGS (fixed-width decimal, so string order = numeric order): the caller's slice and the
+			// contents are observed through the string instantiation, the remaining operations go to the int one
+			strs := make([]string, len(backing), cap(backing))
+			for i, v := range backing {
+				strs[i] = fmt.Sprintf("%07d", v+1000000)
+			}
+			ss := slices.NewSortedOrdered(strs...)
+			for i, x := range strs {
+				n, _ := strconv.Atoi(x)
+				backing[i] = n - 1000000
+			}
+			s := slices.NewSortedOrdered(append([]int(nil), backing...)...)
+			w.s = &s
+			want := make([]string, s.Len())
+			for i := range want {
+				want[i] = fmt.Sprintf("%07d", s.Get(i)+1000000)
+			}
+			if ss.String() != fmt.Sprint(want) {
+				return "string-instance-differs:" + strings.ReplaceAll(ss.String(), " ", ",")
+			}
+			return "ok"
+		}
 		s := slices.NewSorted(backing, lessByID(atoi(t[1])))
 		w.s = &s
 		return "ok"
